@@ -12,8 +12,8 @@ import (
 func init() {
 	register(Property{ID: "C43", Level: "proof", Run: runC43,
 		Technique: "static analysis: must-pass-through path conditions on hls.httpServer.onRequest, muxer.findSession and session.initialize (go/ssa), who-may rules on sessionsBySecret / cdnSession / handleRequest over the whole module",
-		Text:      "Every call of (*muxer).handleRequest (the only way media playlists and segments leave the server) is in httpServer.onRequest and is dominated by one of: a session initialised successfully for this request; a non-nil findSession(ctx) result; isCDN with a non-nil getCDNSession(). getCDNSession is consulted only under isCDN. findSession returns a session only if the secret parses, is a key of sessionsBySecret and the client IP equals the session's IP, and returns exactly that map entry. Sessions enter sessionsBySecret / cdnSession only in muxer.addSession, which is called only from session.initialize after pathManager.AddReader succeeded (which authenticates unless CDN - C03); the muxer and the session are created for the same directory expression. muxerInstance.handleRequest is reached only through muxer.handleRequest. Obligations = handleRequest call sites x alternatives + writers.",
-		Note:      "trusted: C03 (AddReader authenticates; isCDN definition is checked there), gin ClientIP, uuid.Parse; value identity by canonical description (the two session literals of onRequest are distinguished only by control flow)"})
+		Text:      "Every call of (*muxer).handleRequest (the only way media playlists and segments leave the server) is in httpServer.onRequest and is dominated by one of: a session initialised successfully for this request; a non-nil findSession(ctx) result; isCDN with a non-nil getCDNSession(). getCDNSession is consulted only under isCDN. findSession returns a session only if the secret parses, is a key of sessionsBySecret and the client IP equals the session's IP, and returns exactly that map entry. Sessions enter sessionsBySecret / cdnSession only in muxer.addSession, which is called only from session.initialize after pathManager.AddReader succeeded (which authenticates unless CDN - C03); the muxer and the session are created for the same directory expression. muxerInstance.handleRequest is reached only through muxer.handleRequest. 'From the same IP': both the IP stored in the session and the IP findSession compares it with are gin's ctx.ClientIP(); it is the connection's (or a configured proxy's) address because the HLS gin engine - every engine constructed in internal/servers/hls whose handlers can reach ClientIP() - receives SetTrustedProxies(recv.trustedProxies.ToTrustedProxies()) on EVERY path before it is handed to the HTTP server (a fresh gin engine trusts X-Forwarded-For of every peer; the call with an empty list is what disables that), the field is a copy of Server.TrustedProxies, and nothing in the module switches an engine to TrustedPlatform / other remote-IP headers (C43.client_ip.*, shared with C03/C04 in prop_r4_c04.go). Obligations = handleRequest call sites x alternatives + writers.",
+		Note:      "trusted: C03 (AddReader authenticates; isCDN definition is checked there), gin ClientIP given the trusted-proxy list, uuid.Parse; value identity by canonical description (the two session literals of onRequest are distinguished only by control flow)"})
 	addMutants(
 		Mutant{"C43", "ip-not-compared", "internal/servers/hls/muxer.go",
 			"	if ctx.ClientIP() != sx.ip {\n		return nil\n	}\n", "", "C43.find_session"},
@@ -34,6 +34,15 @@ func init() {
 			"func (m *muxer) getCDNSession() *session {\n	m.mutex.Lock()\n	defer m.mutex.Unlock()\n	if m.cdnSession == nil {\n		m.cdnSession = &session{isCDN: true}\n	}\n	return m.cdnSession\n}", "C43.who_may"},
 		Mutant{"C43", "muxer-for-other-dir", "internal/servers/hls/http_server.go",
 			"		muxer, err := s.parent.getMuxer(serverGetMuxerReq{\n			path:   dir,\n			create: false,\n		})", "		muxer, err := s.parent.getMuxer(serverGetMuxerReq{\n			path:   fname,\n			create: false,\n		})", "C43.same_dir"},
+		// round 4: the IP the session is bound to is the client's own claim
+		Mutant{"C43", "hls-trusted-proxies-only-when-configured", "internal/servers/hls/http_server.go",
+			"	router.SetTrustedProxies(s.trustedProxies.ToTrustedProxies()) //nolint:errcheck\n",
+			"	if len(s.trustedProxies) != 0 {\n		router.SetTrustedProxies(s.trustedProxies.ToTrustedProxies()) //nolint:errcheck\n	}\n", "C43.client_ip.trusted_proxies"},
+		Mutant{"C43", "hls-trusted-proxies-only-with-tls", "internal/servers/hls/http_server.go",
+			"	router.SetTrustedProxies(s.trustedProxies.ToTrustedProxies()) //nolint:errcheck\n	router.Use(s.middlewarePreflightRequests)\n",
+			"	router.Use(s.middlewarePreflightRequests)\n	if s.encryption {\n		router.SetTrustedProxies(s.trustedProxies.ToTrustedProxies()) //nolint:errcheck\n	}\n", "C43.client_ip.trusted_proxies"},
+		Mutant{"C43", "hls-proxy-list-is-everybody", "internal/servers/hls/server.go",
+			"		trustedProxies: s.TrustedProxies,\n", "		trustedProxies: conf.IPNetworks{{IP: make([]byte, 4), Mask: make([]byte, 4)}}, // 0.0.0.0/0\n", "C43.client_ip.trusted_proxies"},
 	)
 }
 
@@ -42,8 +51,9 @@ func runC43(c *Ctx) {
 	if p == nil {
 		return
 	}
-	c.Explain = "E1 on httpServer.onRequest: each (*muxer).handleRequest call is dominated by initialize()==nil ∨ findSession/getCDNSession result != nil; getCDNSession only under the isCDN literal. E1 on muxer.findSession. E1 on session.initialize (addSession ⇒ AddReader err nil). E2 (who-may): inserts into muxer.sessionsBySecret and non-nil stores to muxer.cdnSession only in addSession; addSession only from session.initialize; muxer.handleRequest only from onRequest; muxerInstance.handleRequest only from muxer.handleRequest. AST: getMuxer/session literals in onRequest use the same `dir` expression. Not decided: that the secret is unguessable (uuid.New), cookie/query transport."
-	c.Assume = []string{"C03 holds: pathManager.AddReader authenticates the request unless SkipAuth, and SkipAuth is set only for CDN sessions", "gin.Context.ClientIP is the client's address"}
+	c.Explain = "E1 on httpServer.onRequest: each (*muxer).handleRequest call is dominated by initialize()==nil ∨ findSession/getCDNSession result != nil; getCDNSession only under the isCDN literal. E1 on muxer.findSession. E1 on session.initialize (addSession ⇒ AddReader err nil). E2 (who-may): inserts into muxer.sessionsBySecret and non-nil stores to muxer.cdnSession only in addSession; addSession only from session.initialize; muxer.handleRequest only from onRequest; muxerInstance.handleRequest only from muxer.handleRequest. AST: getMuxer/session literals in onRequest use the same `dir` expression. SSA barrier rule on every function of internal/servers/hls that constructs a gin engine whose handlers can reach ctx.ClientIP(): the engine's store into httpp.Server.Handler and that server's Initialize are preceded on every path by SetTrustedProxies(engine, recv.<IPNetworks field>.ToTrustedProxies()); who-may-store on the gin.Engine fields that change what ClientIP() trusts. Not decided: that the secret is unguessable (uuid.New), cookie/query transport."
+	c.Assume = []string{"C03 holds: pathManager.AddReader authenticates the request unless SkipAuth, and SkipAuth is set only for CDN sessions", "gin.Context.ClientIP is the connection's address, or the one reported by a peer in the list given to SetTrustedProxies, once SetTrustedProxies has been called on the engine"}
+	defer dumpObls(c)
 
 	const hr = "(*servers/hls.muxer).handleRequest"
 	const aIsCDN = `phi(((net/http.Header).Get($1.Request.Header, "Authorization") == ("Bearer " + $0.cdnSecret)) | false)`
@@ -155,6 +165,24 @@ func runC43(c *Ctx) {
 			}
 		}
 		c.Check("C43.session_ip", fnName(si)+": session.ip is derived from the creating request's remote address", okIP, p.Pos(si.Pos()), "")
+	}
+
+	// ---- the IP the session is bound to / compared with is not chosen by the client
+	// (prop_r4_c04.go): session.ip and findSession's comparison both read
+	// gin's ClientIP(), which honours X-Forwarded-For of EVERY peer until the
+	// engine is given the configured proxy list - also when that list is empty.
+	c.Floor("C43.client_ip.trusted_proxies", c.ginClientIPR4(p, "C43", func(pkg string) bool { return pkg == "internal/servers/hls" }), 1)
+	c.ginEngineFieldsR4(p, "C43")
+	if ra := c.fn(p, "internal/protocols/httpp", "", "RemoteAddr"); ra != nil {
+		// session.remoteAddr (hence session.ip) is built by httpp.RemoteAddr: its host part is ClientIP()
+		for _, r := range returnsOf(ra) {
+			if r.Block().Comment == "recover" {
+				continue
+			}
+			d := desc(retVal(r, 0))
+			c.Check("C43.session_ip", fnName(ra)+": the host part of the remote address is ctx.ClientIP() (the value findSession compares with)",
+				strings.HasPrefix(d, "net.JoinHostPort((*github.com/gin-gonic/gin.Context).ClientIP($0), "), p.Pos(posOf(r, ra)), "got "+d)
+		}
 	}
 
 	// ---- who-may
